@@ -365,4 +365,65 @@ theorem decode_layers (b0 : Nat) (tl : List Nat) (bias maxValue : Nat)
     refine ⟨ins, ?_, hmem⟩
     rw [hdec, decodeLoop_fuel_irrel _ _ _ _ _ _ N _ _ _ hne (by rw [hN']; simp), hN']
 
+/-- decoder against specification decoder (the property theorem `decode_eq_spec`) -/
+theorem decode_vs_spec (data : List Nat) (bias maxValue : Nat) (hbytes : ∀ b ∈ data, b < 256)
+    (hh : ∀ b0 tl, data = b0 :: tl → b0 / 4 % 32 ≤ maxHeight (bfOfBits b0)) :
+    (∀ ins rest, decode data bias maxValue = .ok ins rest →
+      ∃ ivs, specDecode data = some (ivs, rest) ∧
+        ∀ x, (∃ r ∈ ins, r.1 ≤ x ∧ x ≤ r.2) ↔ SpecMem ivs bias maxValue x) ∧
+    (decode data bias maxValue = .error ↔ specDecode data = none) ∧
+    (∀ ivs rest, specDecode data = some (ivs, rest) →
+      ∃ ins, decode data bias maxValue = .ok ins rest) := by
+  cases data with
+  | nil => simp [decode, specDecode]
+  | cons b0 tl =>
+    have hmax := hh b0 tl rfl
+    by_cases h0 : b0 / 4 % 32 = 0
+    · have hd : decode (b0 :: tl) bias maxValue = .ok [] tl := by
+        simp only [decode]; rw [if_neg (by omega), if_pos h0]; rfl
+      have hs : specDecode (b0 :: tl) = some ([], tl) := by
+        simp only [specDecode]; rw [if_pos h0]; rfl
+      rw [hd, hs]
+      refine ⟨?_, by simp, ?_⟩
+      · intro ins rest h
+        simp at h
+        obtain ⟨rfl, rfl⟩ := h
+        exact ⟨[], rfl, fun x => by simp [SpecMem]⟩
+      · intro ivs rest h
+        simp at h
+        exact ⟨[], by rw [h.2]⟩
+    · have L := decode_layers b0 tl bias maxValue hbytes hmax h0
+      have hs : specDecode (b0 :: tl) =
+          match specLayers (bfOfBits b0) (b0 / 4 % 32) (b0 :: tl) (b0 / 4 % 32) 1 [0]
+              BitIn.start with
+          | none => none
+          | some (ivs, st) => some (ivs, (b0 :: tl).drop (bytesConsumed st)) := by
+        simp only [specDecode]; rw [if_neg h0]
+        generalize specLayers (bfOfBits b0) (b0 / 4 % 32) (b0 :: tl) (b0 / 4 % 32) 1 [0]
+          BitIn.start = o
+        cases o with
+        | none => rfl
+        | some r => cases r; rfl
+      rw [hs]
+      cases hl : specLayers (bfOfBits b0) (b0 / 4 % 32) (b0 :: tl) (b0 / 4 % 32) 1 [0]
+          BitIn.start with
+      | none =>
+        rw [hl] at L
+        simp only [] at L
+        rw [L]
+        simp
+      | some r =>
+        obtain ⟨ivs, st2⟩ := r
+        rw [hl] at L
+        obtain ⟨ins, hdec, hmem⟩ := L
+        rw [hdec]
+        refine ⟨?_, by simp, ?_⟩
+        · intro ins' rest h
+          simp at h
+          obtain ⟨rfl, rfl⟩ := h
+          exact ⟨ivs, rfl, hmem⟩
+        · intro ivs' rest h
+          simp at h
+          exact ⟨ins, by rw [h.2]⟩
+
 end FontVerif.SparseBitSet
